@@ -725,7 +725,27 @@ func runConc(e *env) {
 			s := plans[sn].s
 			e.processResultsConc(s, s.pendingResp)
 		}
+		// a session may have lost the primary role for a while, in the middle of the run, to any other session
+		// that announced an id at least as high as the lowest it announced itself (the order is the schedule's)
+		e.lostRole = map[int]bool{}
+		for _, sn := range order {
+			s := plans[sn].s
+			for _, on := range order {
+				o := plans[on].s
+				if o == s {
+					continue
+				}
+				for _, a := range s.announced {
+					for _, b := range o.announced {
+						if !less128(b, a) {
+							e.lostRole[s.idx] = true
+						}
+					}
+				}
+			}
+		}
 		e.checkpoint(func() { e.afterQuiescenceChecks(nil) })
+		e.lostRole = nil
 		e.propOverride = ""
 	}
 	e.serviceProbe("C11", "after the concurrent run")
